@@ -4,6 +4,7 @@ with lib.make_grid, get_folding_profile (float instance with recorded 10**x / lo
 Search: finite differences of the written folding profile against 1.36 (Qf - Qu), end points, printed rows."""
 import fractions
 import io
+import itertools
 import math
 import re
 
@@ -135,6 +136,9 @@ def run(chk: common.Check):
             gs, grid, ref = [(1.0, 5.87, 8.0, True, [-0.85]), (1.0, 6.8, 4.5, True, [-0.64]), (1.0, 12.9, 9.0, False, [-0.74, 0.09, 0.39]), (-1.0, 4.0, 4.5, True, []),
                              (-1.0, 3.249636, 3.8, True, [-0.35, -1.16, 1.0])], (0.0, 14.0, 0.5), "low-pH"
         groups = [CE.fake_group(q, pk, mp, t, coul) for q, pk, mp, t, coul in gs]
+        # the group's OWN model pKa counts (custom model pKa values): residue types whose table entry is something else
+        for g_, rt_ in zip(groups, itertools.cycle(["ASP", "OP", "", "LYS", "NAR", "TYR"])):
+            g_.residue_type = rt_
         conf.groups = groups
         rec = CE.Recorder()
 
@@ -167,6 +171,23 @@ def run(chk: common.Check):
             k = next((i for i, (a, b) in enumerate(zip([float(p[0]) for p in prof], exp_grid)) if a != b), min(len(prof), len(exp_grid)))
             found.append(("profile-off-grid", f"folding profile for grid {grid} is computed at pH {[p[0] for p in prof][k:k + 2]} where the requested grid has {exp_grid[k:k + 2]}",
                           {"grid": grid, "index": k, "impl": [p[0] for p in prof][:12], "expected": exp_grid[:12]}))
+        # search: proton linkage on these synthetic groups (fine grid): d(dG)/dpH = 1.36 (Qf - Qu) with the charges the API reports for them
+        if gs and ci < 12:
+            fine = (0.0, 14.0, 0.05)
+            try:
+                pf, _o, _r, _s = mol.get_folding_profile("AVR", reference=ref, grid=fine)
+                cp = {round(r_[0], 6): (r_[1], r_[2]) for r_ in mol.get_charge_profile("AVR", grid=fine)}
+            except Exception:   # noqa: BLE001
+                pf, cp = [], {}
+            ntit = sum(1 for g_ in gs if g_[3])
+            for i_ in range(1, len(pf) - 1, 7):
+                d_ = (pf[i_ + 1][1] - pf[i_ - 1][1]) / (pf[i_ + 1][0] - pf[i_ - 1][0])
+                qu_, qf_ = cp.get(round(pf[i_][0], 6), (None, None))
+                tol_ = 1.36 * max(1, ntit) * (math.log(10) ** 2) * fine[2] ** 2 / 6 * 0.2 + 1e-6
+                if qu_ is not None and abs(d_ - 1.36 * (qf_ - qu_)) > tol_:
+                    found.append(("linkage:synthetic-groups", f"groups {gs} ({ref}): d(dG)/dpH at pH {pf[i_][0]} is {d_:.5f}, 1.36 (Qf-Qu) = {1.36 * (qf_ - qu_):.5f} with the reported charges",
+                                  {"groups": gs, "reference": ref, "ph": pf[i_][0]}))
+                    break
         # search: optimum is the minimum; ranges
         if prof:
             mn = min(p[1] for p in prof)
@@ -210,6 +231,8 @@ def run(chk: common.Check):
     moved_i = structures.map_atoms(sub, lambda l: structures.set_xyz(l, structures.get_xyz(l)[0] + _D(40), structures.get_xyz(l)[1], structures.get_xyz(l)[2]) if l[21] == "I" else l)
     ensemble = structures.as_models([sub, moved_i])
     combos_texts = [(g, w, text1) for g, w in combos] + [((0.0, 14.0, 0.1), (0.0, 14.0, 1.0), ensemble), ((2.0, 9.0, 0.05), (2.0, 9.0, 0.5), ensemble)]
+    # (sample-issue-140: the optimum and the start of the ranges lie at pH 0.0, the first grid point; 1HPX: stability range starting at 0.0)
+    combos_texts += [((0.0, 14.0, 0.1), (0.0, 14.0, 1.0), structures.read("sample-issue-140.pdb")), ((0.0, 14.0, 0.5), (0.0, 14.0, 0.5), structures.read("1HPX.pdb"))]
     combos = [(g, w) for g, w, _ in combos_texts]
     for grid, win, text1 in combos_texts:
         opts = ["-g"] + [repr(v) for v in grid] + ["-w"] + [repr(v) for v in win]
@@ -218,6 +241,16 @@ def run(chk: common.Check):
         sect = get_folding_profile_section(m2, conformation="AVR", reference=ref, window=m2.options.window)
         rows = re.findall(r"^\s*(-?\d+\.\d\d)\s+(-?\d+\.\d\d)\s*$", sect, re.M)
         prof, opt, r80, stab = m2.get_folding_profile("AVR", reference=ref, grid=m2.options.grid)
+        # search: the three summary lines of the section state exactly the optimum and ranges of the profile (a value of 0.0 is a value)
+        for label, vals, pat in (("optimum", opt, r"optimum stability is\s*(-?\d+\.\d) for which the free energy is\s*(-?\d+\.\d)"),
+                                 ("80 % range", r80, r"within 80 % of maximum at pH\s*(-?\d+\.\d) to\s*(-?\d+\.\d)"),
+                                 ("stability range", stab, r"negative in the range\s*(-?\d+\.\d) -\s*(-?\d+\.\d)")):
+            mt = re.search(pat, sect)
+            want_txt = None if (vals[0] is None or vals[1] is None) else ("{0:.1f}".format(vals[0]), "{0:.1f}".format(vals[1]))
+            got_txt = None if mt is None else (mt.group(1), mt.group(2))
+            norm = lambda p_: None if p_ is None else tuple(x.replace("-0.0", "0.0") for x in p_)
+            if norm(want_txt) != norm(got_txt):
+                found.append(("profile-summary-lines", f"-g {grid} {ref}: the section prints {label} {got_txt}, the computed profile has {vals}", {"grid": grid, "reference": ref, "what": label}))
         # model: window_rows over the exact grid
         wexprs.append(f"match make_grid 5000 {qlit(grid[0])} {qlit(grid[1])} {qlit(grid[2])} with Some l => "
                       f"map (fun p => let r := Qred (fst p) in fout (flit (Qnum r) (Zpos (Qden r)))) "
